@@ -8,7 +8,7 @@ From Coq Require Import ZArith List Lia Bool ZifyBool FMapPositive.
 From LZ4V Require Import Gen.Consts Spec.BlockSpec Model.Mem Model.Fast Model.FastApi Model.HcEmit Model.HcMid Model.HcMidStream.
 From LZ4V Require Import Model.HcChain Model.HcChainApi Model.HcChainStream Model.HcTabStream.
 From LZ4V Require Import Proofs.BlockSpecProofs Proofs.FactorSpec Proofs.FastStreamMem Proofs.HcMidSound Proofs.HcMidCap Proofs.HcMidStreamProofs.
-From LZ4V Require Import Proofs.HcChainStreamProofs.
+From LZ4V Require Import Proofs.HcMidStreamHist Proofs.HcChainStreamProofs Proofs.HcChainStreamHist.
 From LZ4V Require Proofs.HcChainSearch Proofs.HcChainSound Proofs.HcChainCap Proofs.HcChainParser.
 Import ListNotations.
 Local Open Scope Z_scope.
@@ -536,5 +536,369 @@ Proof.
   - intros H. injection H as <-. exact I.
   - destruct P as (P1 & P2). destruct (tstep st o) as [[st1 x]|] eqn:E; [|discriminate].
     apply IH; [apply (tstep_inv st o st1 x I P1 E) | exact P2].
+Qed.
+
+(* ================================================================ decoder side (text of Proofs/HcChainStreamHist.v) *)
+(* ---------------------------------------------------------------- one successful call, decoder side *)
+Theorem ts_call_decodes m ke src n cap lim ret consumed out hw c' H :
+  k_ready ke src -> tcall_post m ke src n cap lim ret consumed out hw c' -> hhist_inv m ke H -> 0 < ret ->
+  (forall K, 65535 <= Z.of_nat K -> spec_decode (lastn K H) out = Some (load_list m src (Z.to_nat consumed))) /\
+  (lim <> FillOutput ->
+   forall K, 65535 <= Z.of_nat K -> strict_valid (lastn K H) out = Some (load_list m src (Z.to_nat consumed))) /\
+  hhist_inv m (ts_core c') (H ++ load_list m src (Z.to_nat consumed)).
+Proof.
+  intros ((L & P & _) & _ & _ & _ & Hend) (_ & _ & _ & _ & _ & _ & Q) HI Hr.
+  destruct (Q Hr) as (_ & _ & _ & Hc & Hfull & Dsp & Dst & After).
+  rewrite seg_hvis in Dsp, Dst by lia.
+  pose proof (is_suffix_lastn _ _ HI) as EL.
+  split; [|split].
+  - intros K HK. apply (window_spec H (length (hvis m ke)) K); [rewrite EL; exact Dsp | exact HK].
+  - intros Hl K HK. apply (window_strict H (length (hvis m ke)) K); [rewrite EL; exact (Dst Hl) | exact HK].
+  - unfold hhist_inv. destruct After as [(_ & _ & A3 & A4 & A5) | (A1 & A2 & A3 & A4 & A5 & A6)].
+    + unfold hvis, k_xlen, k_plen. rewrite A3, A4, A5.
+      replace (Z.to_nat (k_dictLimit (ts_core c') - k_dictLimit (ts_core c'))) with 0%nat by lia.
+      replace (Z.to_nat (src + consumed - (src + consumed))) with 0%nat by lia. cbn [load_list app]. apply is_suffix_nil.
+    + subst consumed. unfold hvis, k_xlen, k_plen in *. rewrite A2, A3, A4, A5, A6.
+      replace (Z.to_nat (src + n - k_prefixStart ke)) with (Z.to_nat (k_end ke - k_prefixStart ke) + Z.to_nat n)%nat by lia.
+      rewrite load_list_app, app_assoc.
+      replace (k_prefixStart ke + Z.of_nat (Z.to_nat (k_end ke - k_prefixStart ke))) with src by lia.
+      apply is_suffix_snoc. exact HI.
+Qed.
+
+(* ================================================================ the prelude only shrinks the designated bytes to a suffix *)
+Lemma ts_pre1_hist m c src : ts_ok c -> 0 <= src -> is_suffix (hvis m (ts_core (ts_pre1 c src))) (hvis m (ts_core c)).
+Proof.
+  intros ((K & _) & _) Hs. unfold ts_pre1, ts_core in *. destruct (k_prefixStart (hs_core (ts_hs c)) =? 0); [|exists []; reflexivity].
+  unfold kc_init_internal. cbn [ts_hs hs_core].
+  pose proof (k_init_internal_ok (hs_core (ts_hs c)) src K Hs) as I0. cbv zeta in I0.
+  destruct I0 as (_ & _ & _ & _ & I5 & I6 & I7 & _).
+  rewrite hvis_nil; [apply is_suffix_nil | unfold k_xlen; lia | unfold k_plen; lia].
+Qed.
+
+Lemma ts_pre2_hist m m2 c c2 : ts_ok c -> ts_pre2 m c = Some c2 -> is_suffix (hvis m2 (ts_core c2)) (hvis m2 (ts_core c)).
+Proof.
+  intros ((K & _) & _). unfold ts_pre2, ts_core in *. cbv zeta. pose proof K as (L & P & _).
+  destruct (_ >? GB2).
+  - remember (k_end (hs_core (ts_hs c)) - k_prefixStart (hs_core (ts_hs c))) as pl eqn:Epl.
+    remember (if pl >? K64 then K64 else pl) as ds eqn:Eds.
+    assert (Hds : 0 <= ds <= pl /\ ds <= K64) by (rewrite Eds; unfold K64; destruct (pl >? 65536) eqn:E1; lia).
+    destruct (ts_loadDict m c (k_end (hs_core (ts_hs c)) - ds) ds) as [[c' r]|] eqn:El; [|discriminate].
+    intros Heq. injection Heq as <-.
+    pose proof (ts_loadDict_ok m c (k_end (hs_core (ts_hs c)) - ds) ds c' r ltac:(lia) ltac:(lia) El) as LD. unfold ts_core in LD.
+    destruct LD as (_ & _ & _ & _ & L4 & L5 & L6 & L7 & L8 & _).
+    unfold hvis at 1. unfold k_xlen, k_plen. rewrite L5, L6, L7, L8, L4.
+    replace (Z.to_nat (K64 - K64)) with 0%nat by lia. cbn [load_list app].
+    replace (k_end (hs_core (ts_hs c)) - ds + ds - (k_end (hs_core (ts_hs c)) - ds + ds - Z.min ds K64)) with ds by lia.
+    replace (k_end (hs_core (ts_hs c)) - ds + ds - Z.min ds K64) with (k_end (hs_core (ts_hs c)) - ds) by lia.
+    unfold hvis, k_plen. rewrite <- Epl.
+    rewrite (load_list_split m2 (k_prefixStart (hs_core (ts_hs c))) (Z.to_nat pl) (Z.to_nat ds)) by lia.
+    replace (k_prefixStart (hs_core (ts_hs c)) + Z.of_nat (Z.to_nat pl - Z.to_nat ds)) with (k_end (hs_core (ts_hs c)) - ds) by lia.
+    rewrite app_assoc. apply is_suffix_app_r.
+  - intros Heq. injection Heq as <-. exists []. reflexivity.
+Qed.
+
+Lemma ts_pre3_hist m m2 c src : tpre_inv c -> K64 <= k_lowLimit (ts_core c) -> 0 <= src ->
+  is_suffix (hvis m2 (ts_core (ts_pre3 m c src))) (hvis m2 (ts_core c)).
+Proof.
+  unfold tpre_inv, ts_ok, ts_core. intros (((K & D) & C & Dc) & Hd & Hl) Ha Hs. unfold ts_pre3, ts_core.
+  destruct (negb (src =? k_end (hs_core (ts_hs c)))); [|exists []; reflexivity].
+  destruct (C Hd) as (C1 & C2).
+  pose proof (kc_setExternalDict_hist m m2 (hs_core (ts_hs c)) (ts_chain c) src K Hd C1 C2 ltac:(destruct K as (L & _); lia) Hs) as Q.
+  destruct (kc_setExternalDict m (hs_core (ts_hs c)) (ts_chain c) src) as [k ct]. cbn [fst ts_hs hs_core] in *. exact Q.
+Qed.
+
+Lemma ts_prelude_hist m m2 c src n c1 :
+  tpre_inv c -> 0 < src -> 0 <= n -> ts_prelude m c src n = Some c1 ->
+  is_suffix (hvis m2 (ts_core c1)) (hvis m2 (ts_core (ts_pre1 c src))) /\
+  is_suffix (hvis m2 (ts_core c1)) (hvis m2 (ts_core c)) /\ clear_of (ts_core c1) src n.
+Proof.
+  intros P Hs Hn. unfold ts_prelude.
+  destruct (ts_pre1_ok c src P ltac:(lia)) as (P1 & A1 & D1).
+  destruct (ts_pre2 m (ts_pre1 c src)) as [c2|] eqn:E2; [|discriminate].
+  destruct (ts_pre2_ok m (ts_pre1 c src) c2 P1 A1 E2) as (P2 & A2 & G2 & D2).
+  destruct (ts_pre3_ok m c2 src P2 A2 G2 ltac:(lia)) as (P3 & R3 & D3).
+  pose proof (pre4_hist m2 (ts_hs (ts_pre3 m c2 src)) src n R3 ltac:(lia) Hn) as (H4 & C4).
+  intros Heq. injection Heq as <-. unfold ts_core at 1 3 5. cbn [ts_hs]. rewrite cs_trim_pre4.
+  assert (S1 : is_suffix (hvis m2 (hs_core (pre4 (ts_hs (ts_pre3 m c2 src)) src n))) (hvis m2 (ts_core (ts_pre1 c src)))).
+  { eapply is_suffix_trans; [exact H4|].
+    eapply is_suffix_trans; [apply (ts_pre3_hist m m2 c2 src P2 A2 ltac:(lia))|].
+    apply (ts_pre2_hist m m2 (ts_pre1 c src) c2 (proj1 P1) E2). }
+  split; [exact S1|]. split; [|exact C4].
+  eapply is_suffix_trans; [exact S1|]. apply (ts_pre1_hist m2 c src (proj1 P) ltac:(lia)).
+Qed.
+
+(* ---------------------------------------------------------------- the context the parser runs on *)
+Lemma ts_effective_hist m m2 c src n ke cte H :
+  tpre_inv c -> 0 < src -> 0 <= n -> ts_effective m c src n = Some (ke, cte) ->
+  (k_prefixStart (ts_core c) = 0 \/ hhist_inv m2 (ts_core c) H) ->
+  (match hs_dctx (ts_hs c) with Some d => hhist_inv m2 d H | None => True end) ->
+  hhist_inv m2 ke H /\ (hs_dctx (ts_hs c) = None -> clear_of ke src n).
+Proof.
+  intros P Hs Hn. unfold ts_effective.
+  destruct (ts_prelude m c src n) as [c1|] eqn:E; [|discriminate].
+  destruct (ts_prelude_hist m m2 c src n c1 P Hs Hn E) as (Sp & S1 & C1).
+  destruct (ts_prelude_ok m c src n c1 P Hs Hn E) as (P1 & R1 & D1).
+  unfold ts_pick. cbv zeta. intros Hp HI HD.
+  assert (Own : hhist_inv m2 (ts_core c1) H).
+  { destruct HI as [Hz|HI]; [|eapply is_suffix_trans; [exact S1 | exact HI]].
+    assert (Ev : hvis m2 (ts_core (ts_pre1 c src)) = []).
+    { unfold ts_pre1, ts_core in *. rewrite Hz. cbn [Z.eqb]. unfold kc_init_internal. cbn [ts_hs hs_core].
+      pose proof (k_init_internal_ok (hs_core (ts_hs c)) src (proj1 (proj1 (proj1 P))) ltac:(lia)) as I0. cbv zeta in I0.
+      destruct I0 as (_ & _ & _ & _ & I5 & I6 & I7 & _). apply hvis_nil; [unfold k_xlen; lia | unfold k_plen; lia]. }
+    rewrite Ev in Sp. destruct Sp as (q & Eq). symmetry in Eq. apply app_eq_nil in Eq. destruct Eq as (_ & Eq).
+    unfold hhist_inv. rewrite Eq. apply is_suffix_nil. }
+  destruct (hs_dctx (ts_hs c1)) as [d|] eqn:Ed.
+  - assert (Edc : hs_dctx (ts_hs c) = Some d) by (destruct D1 as [D1|D1]; congruence).
+    rewrite Edc in HD.
+    destruct (_ >=? K64); [injection Hp as <- <-; split; [exact Own | intros; congruence]|].
+    destruct (_ && _ && _); [|discriminate].
+    destruct P1 as (((_ & Dd) & _ & Dc) & _). rewrite Ed in Dd, Dc. destruct Dd as (Dk & Ddy & Da & _). destruct Dc as (Dc1 & Dc2).
+    pose proof (kc_setExternalDict_hist m m2 d (ts_dchain c1) src Dk Ddy Dc1 Dc2 Da ltac:(lia)) as Q.
+    destruct (kc_setExternalDict m d (ts_dchain c1) src) as [k' ct']. cbn [fst] in Q.
+    injection Hp as <- <-. split; [|intros; congruence].
+    unfold hhist_inv. eapply is_suffix_trans; [|exact HD].
+    unfold hvis, k_xlen, k_plen in *. cbn [k_dictLimit k_lowLimit k_dictStart k_prefixStart k_end]. exact Q.
+  - injection Hp as <- <-. split; [exact Own | intros _; exact C1].
+Qed.
+
+(* the caller writes the next block [src, src + |bs|): whatever its placement, the bytes the call will use as
+   history are untouched (the overlap trimming of the HC API covers every overlap) *)
+Theorem ts_write_block_hist m c src bs ke cte H :
+  tpre_inv c -> hs_dctx (ts_hs c) = None -> 0 < src ->
+  ts_effective (store_list m src bs) c src (Z.of_nat (length bs)) = Some (ke, cte) ->
+  hhist_inv m (ts_core c) H ->
+  hhist_inv (store_list m src bs) ke H.
+Proof.
+  intros P Hd Hs He HI.
+  assert (HD : match hs_dctx (ts_hs c) with Some d => hhist_inv m d H | None => True end) by (rewrite Hd; exact I).
+  destruct (ts_effective_hist (store_list m src bs) m c src (Z.of_nat (length bs)) ke cte H P Hs ltac:(lia) He (or_intror HI) HD) as (A & B).
+  pose proof (ts_effective_ready (store_list m src bs) c src (Z.of_nat (length bs)) ke cte (proj1 P) (proj1 (proj2 P)) (proj2 (proj2 P)) Hs ltac:(lia) He) as (((L & Pp & _) & _) & _).
+  unfold hhist_inv. rewrite hvis_write; [exact A | exact (B Hd) | unfold k_xlen; lia | unfold k_plen; lia].
+Qed.
+
+(* LZ4_saveDictHC: nothing table-specific *)
+Lemma ts_saveDict_eq m c a n :
+  fst (fst (ts_saveDict m c a n)) = fst (fst (hs_saveDict m (ts_hs c) a n)) /\
+  ts_hs (snd (fst (ts_saveDict m c a n))) = snd (fst (hs_saveDict m (ts_hs c) a n)) /\
+  snd (ts_saveDict m c a n) = snd (hs_saveDict m (ts_hs c) a n).
+Proof. unfold ts_saveDict. destruct (hs_saveDict m (ts_hs c) a n) as [[m' h'] r]. cbn [fst snd ts_hs]. repeat split; reflexivity. Qed.
+
+Lemma ts_saveDict_hist m c a n H :
+  hmem_ok m -> ts_ok c -> 0 < a -> hhist_inv m (ts_core c) H ->
+  hhist_inv (fst (fst (ts_saveDict m c a n))) (ts_core (snd (fst (ts_saveDict m c a n)))) H.
+Proof.
+  intros Hm (K & _) Ha HI. destruct (ts_saveDict_eq m c a n) as (E1 & E2 & _). unfold ts_core. rewrite E1, E2.
+  apply hs_saveDict_hist; assumption.
+Qed.
+
+(* LZ4_loadDictHC of any size: the context designates the last min(n, 64 KB) bytes of the dictionary *)
+Lemma ts_loadDict_hist m c a n c' r :
+  0 <= n -> 0 <= a -> ts_loadDict m c a n = Some (c', r) -> hhist_inv m (ts_core c') (load_list m a (Z.to_nat n)).
+Proof.
+  intros Hn Ha E. pose proof (ts_loadDict_ok m c a n c' r Hn Ha E) as LD.
+  destruct LD as (_ & _ & _ & _ & L4 & L5 & L6 & L7 & L8 & _).
+  unfold hhist_inv, hvis, k_xlen, k_plen. rewrite L5, L6, L7, L8.
+  replace (Z.to_nat (K64 - K64)) with 0%nat by lia. cbn [load_list app].
+  replace (a + n - (a + n - r)) with r by lia.
+  rewrite (load_list_split m a (Z.to_nat n) (Z.to_nat r)) by (unfold K64 in *; lia).
+  replace (a + Z.of_nat (Z.to_nat n - Z.to_nat r)) with (a + n - r) by (unfold K64 in *; lia).
+  apply is_suffix_app_r.
+Qed.
+
+(* ================================================================ whole operation lists *)
+Definition thist_next (st : mem * tctx) (H : list Z) (o : top) (ret consumed : Z) : list Z :=
+  match o with
+  | TWrite _ _ | TSaveDict _ _ | TSetLevel _ | TSetFav _ | TAttach None => H
+  | TInit | TResetStream _ | TResetFast _ => []
+  | TLoadDict a n => load_list (fst st) a (Z.to_nat n)
+  | TAttach (Some d) => hvis (fst st) (ts_core d)
+  | TContinue src _ _ | TContinueDestSize src _ _ =>
+    if 0 <? ret then H ++ load_list (fst st) src (Z.to_nat consumed) else H
+  | TFastReset src _ _ _ | TExtState src _ _ _ =>
+    if 0 <? ret then load_list (fst st) src (Z.to_nat consumed) else []
+  end.
+
+(* documented preconditions along a run: [top_pre], and before each streaming call the bytes the call will use as
+   history (after its own prelude) are the tail of what the decoder has *)
+Fixpoint tstream_pre (st : mem * tctx) (H : list Z) (ops : list top) : Prop :=
+  match ops with
+  | [] => True
+  | o :: r =>
+    top_pre st o /\
+    match o with
+    | TContinue src n _ | TContinueDestSize src n _ =>
+      forall ke cte, ts_effective (fst st) (snd st) src n = Some (ke, cte) -> hhist_inv (fst st) ke H
+    | _ => True
+    end /\
+    match tstep st o with
+    | Some (st', (ret, _, consumed)) => tstream_pre st' (thist_next st H o ret consumed) r
+    | None => True
+    end
+  end.
+
+Fixpoint tstream_claim (st : mem * tctx) (H : list Z) (ops : list top) : Prop :=
+  match ops with
+  | [] => True
+  | o :: r =>
+    match tstep st o with
+    | None => True
+    | Some (st', (ret, out, consumed)) =>
+      match o with
+      | TContinue src n cap =>
+        (compressBound n <= cap -> n <= LZ4_MAX_INPUT_SIZE -> 0 < ret) /\
+        (0 < ret -> ret = Z.of_nat (length out) /\ ret <= Z.max cap (compressBound n) /\ consumed = n /\
+                    win_strict H out (load_list (fst st) src (Z.to_nat n)))
+      | TContinueDestSize src n target =>
+        0 < ret -> ret = Z.of_nat (length out) /\ ret <= target /\ 0 <= consumed <= n /\
+                   win_spec H out (load_list (fst st) src (Z.to_nat consumed))
+      | TFastReset src n cap _ | TExtState src n cap _ =>
+        (compressBound n <= cap -> n <= LZ4_MAX_INPUT_SIZE -> 0 < ret) /\
+        (0 < ret -> ret = Z.of_nat (length out) /\ ret <= Z.max cap (compressBound n) /\ consumed = n /\
+                    strict_valid [] out = Some (load_list (fst st) src (Z.to_nat n)))
+      | _ => True
+      end /\
+      tstream_claim st' (thist_next st H o ret consumed) r
+    end
+  end.
+
+Lemma kt_generic_pos m ke cte fav src n cap lim ret consumed out hw c' :
+  0 <= n < 2147483648 -> kt_generic m ke cte fav src n cap lim = Some (TRes ret consumed out hw c') -> 0 < ret ->
+  n <= LZ4_MAX_INPUT_SIZE.
+Proof.
+  intros Hn. unfold HcTabStream.kt_generic.
+  destruct (match lim with FillOutput => cap <? 1 | _ => false end); [intros H; injection H as <- _ _ _ _; lia|].
+  destruct (u32 n >? LZ4_MAX_INPUT_SIZE) eqn:E; [intros H; injection H as <- _ _ _ _; lia|].
+  intros _ _. rewrite u32s in E by lia. lia.
+Qed.
+
+Lemma ts_continue_generic_pos m c src n cap lim ret consumed out hw c' :
+  0 <= n < 2147483648 -> ts_continue_generic m c src n cap lim = Some (TRes ret consumed out hw c') -> 0 < ret ->
+  n <= LZ4_MAX_INPUT_SIZE.
+Proof.
+  intros Hn. rewrite ts_continue_generic_eq. destruct (lvl_ok _); [|discriminate].
+  destruct (ts_effective m c src n) as [[ke cte]|]; [|discriminate]. apply kt_generic_pos. exact Hn.
+Qed.
+
+Lemma ts_fastReset_pos m c src n cap level ret consumed out hw c' :
+  0 <= n < 2147483648 -> ts_fastReset m c src n cap level = Some (TRes ret consumed out hw c') -> 0 < ret ->
+  n <= LZ4_MAX_INPUT_SIZE.
+Proof.
+  intros Hn. unfold ts_fastReset. cbv zeta. destruct (lvl_ok _); [|discriminate].
+  destruct (kc_init_internal _ _ src) as [k ct].
+  rewrite ts_generic_eq. destruct (ts_pick m _ src n) as [[ke cte]|]; [|discriminate]. apply kt_generic_pos. exact Hn.
+Qed.
+
+(* the claims for one successful streaming call, from [tcall_post] *)
+Lemma tcontinue_claims m ke src n cap ret consumed out hw c' H :
+  0 <= n < 2147483648 -> k_ready ke src ->
+  tcall_post m ke src n cap (if cap <? compressBound n then LimitedOutput else NotLimited) ret consumed out hw c' ->
+  hhist_inv m ke H -> (0 < ret -> n <= LZ4_MAX_INPUT_SIZE) ->
+  (compressBound n <= cap -> n <= LZ4_MAX_INPUT_SIZE -> 0 < ret) /\
+  (0 < ret -> ret = Z.of_nat (length out) /\ ret <= Z.max cap (compressBound n) /\ consumed = n /\
+              win_strict H out (load_list m src (Z.to_nat n))).
+Proof.
+  intros Hn R Q HI Hpos. pose proof Q as (_ & _ & _ & Q4 & Q5 & _ & Q7).
+  split.
+  - intros Hb Hmax. replace (cap <? compressBound n) with false in Q5 by lia. apply Q5; [reflexivity | exact Hmax].
+  - intros Hr. destruct (Q7 Hr) as (_ & E1 & E2 & _ & E4 & _).
+    assert (Hl : (if cap <? compressBound n then LimitedOutput else NotLimited) <> FillOutput) by (destruct (cap <? compressBound n); discriminate).
+    specialize (E4 Hl). subst consumed.
+    destruct (ts_call_decodes m ke src n cap _ ret n out hw c' H R Q HI Hr) as (_ & D2 & _).
+    split; [exact E1|]. split; [pose proof (hwlim_cap n cap ltac:(specialize (Hpos Hr); lia)); lia|].
+    split; [reflexivity|]. intros K HK. apply (D2 Hl K HK).
+Qed.
+
+Theorem tstream_roundtrip : forall ops st H, tstate_inv st -> tstream_pre st H ops -> tstream_claim st H ops.
+Proof.
+  induction ops as [|o r IH]; intros st H Inv P; cbn [tstream_pre tstream_claim] in *; [exact I|].
+  destruct P as (P1 & P2 & P3).
+  destruct (tstep st o) as [[st' [[ret out] consumed]]|] eqn:E; [|exact I].
+  split; [|apply IH; [apply (tstep_inv st o st' _ Inv P1 E) | exact P3]].
+  destruct st as [m c]. destruct Inv as (Hm & K). cbn [fst snd] in *.
+  destruct o; try exact I; cbn [tstep top_pre snd] in *.
+  - (* LZ4_compress_HC_continue *)
+    apply of_tres_inv in E. destruct E as (ret' & consumed' & out' & hw & c' & E0 & _ & Ex). injection Ex as -> -> ->.
+    destruct P1 as (Pd & Ps & Pn & Pc). unfold ts_continue in E0.
+    destruct (ts_continue_generic_sound m c src n cap _ ret' consumed' out' hw c' Hm K Pd Ps Pn Pc E0) as (ke & cte & Ee & R & _ & _ & Q).
+    apply (tcontinue_claims m ke src n cap ret' consumed' out' hw c' H Pn R Q (P2 ke cte Ee)).
+    apply (ts_continue_generic_pos m c src n cap _ ret' consumed' out' hw c' Pn E0).
+  - (* LZ4_compress_HC_continue_destSize *)
+    apply of_tres_inv in E. destruct E as (ret' & consumed' & out' & hw & c' & E0 & _ & Ex). injection Ex as -> -> ->.
+    destruct P1 as (Pd & Ps & Pn & Pc). unfold ts_continue_destSize in E0.
+    destruct (ts_continue_generic_sound m c src n target FillOutput ret' consumed' out' hw c' Hm K Pd Ps Pn Pc E0) as (ke & cte & Ee & R & _ & _ & Q).
+    intros Hr. pose proof Q as (_ & _ & _ & Q4 & _ & _ & Q7). destruct (Q7 Hr) as (_ & E1 & E2 & E3 & _).
+    destruct (ts_call_decodes m ke src n target FillOutput ret' consumed' out' hw c' H R Q (P2 ke cte Ee) Hr) as (D1 & _ & _).
+    split; [exact E1|]. split; [unfold hwlim in Q4; lia|]. split; [exact E3|]. intros Kk HK. apply (D1 Kk HK).
+  - (* LZ4_compress_HC_extStateHC_fastReset *)
+    apply of_tres_inv in E. destruct E as (ret' & consumed' & out' & hw & c' & E0 & _ & Ex). injection Ex as -> -> ->.
+    destruct P1 as (Ps & Pn & Pc).
+    pose proof (ts_fastReset_sound m c src n cap level ret' consumed' out' hw c' Hm K Ps Pn Pc E0) as Q. cbv zeta in Q.
+    destruct Q as (R & Q1 & Q2 & Q).
+    assert (HI : hhist_inv m (k_init_internal (ts_core (ts_resetFast c level)) src) []).
+    { unfold hhist_inv. rewrite hvis_nil; [apply is_suffix_nil | unfold k_xlen; lia|].
+      unfold k_plen. destruct R as ((_ & Pp & _) & _ & _ & _ & Re). unfold k_endIdx in Q2. lia. }
+    pose proof (tcontinue_claims m _ src n cap ret' consumed' out' hw c' [] Pn R Q HI
+                  (ts_fastReset_pos m c src n cap level ret' consumed' out' hw c' Pn E0)) as (C1 & C2).
+    split; [exact C1|]. intros Hr. destruct (C2 Hr) as (A1 & A2 & A3 & A4).
+    split; [exact A1|]. split; [exact A2|]. split; [exact A3|].
+    specialize (A4 (Z.to_nat 65535) ltac:(lia)). unfold lastn in A4. cbn [length skipn Nat.sub] in A4. exact A4.
+  - (* LZ4_compress_HC_extStateHC *)
+    apply of_tres_inv in E. destruct E as (ret' & consumed' & out' & hw & c' & E0 & _ & Ex). injection Ex as -> -> ->.
+    destruct P1 as (Ps & Pn & Pc). unfold ts_extState in E0.
+    pose proof (ts_fastReset_sound m ts_init src n cap level ret' consumed' out' hw c' Hm ts_init_ok Ps Pn Pc E0) as Q. cbv zeta in Q.
+    destruct Q as (R & Q1 & Q2 & Q).
+    assert (HI : hhist_inv m (k_init_internal (ts_core (ts_resetFast ts_init level)) src) []).
+    { unfold hhist_inv. rewrite hvis_nil; [apply is_suffix_nil | unfold k_xlen; lia|].
+      unfold k_plen. destruct R as ((_ & Pp & _) & _ & _ & _ & Re). unfold k_endIdx in Q2. lia. }
+    pose proof (tcontinue_claims m _ src n cap ret' consumed' out' hw c' [] Pn R Q HI
+                  (ts_fastReset_pos m ts_init src n cap level ret' consumed' out' hw c' Pn E0)) as (C1 & C2).
+    split; [exact C1|]. intros Hr. destruct (C2 Hr) as (A1 & A2 & A3 & A4).
+    split; [exact A1|]. split; [exact A2|]. split; [exact A3|].
+    specialize (A4 (Z.to_nat 65535) ltac:(lia)). unfold lastn in A4. cbn [length skipn Nat.sub] in A4. exact A4.
+Qed.
+
+(* ================================================================ C12: the dictionary routes, end to end *)
+(* LZ4_loadDictHC of any size at a hash-chain level, then a block anywhere in memory *)
+Theorem tab_loadDict_roundtrip m c a n c' r src k cap ret consumed out hw c'' :
+  hmem_ok m -> 0 <= n -> 0 <= a -> 0 < src -> 0 <= k < 2147483648 -> 0 <= cap ->
+  ts_loadDict m c a n = Some (c', r) ->
+  ts_continue m c' src k cap = Some (TRes ret consumed out hw c'') ->
+  (compressBound k <= cap -> k <= LZ4_MAX_INPUT_SIZE -> 0 < ret) /\
+  (0 < ret -> ret = Z.of_nat (length out) /\ ret <= Z.max cap (compressBound k) /\ consumed = k /\
+              win_strict (load_list m a (Z.to_nat n)) out (load_list m src (Z.to_nat k))).
+Proof.
+  intros Hm Hn Ha Hs Hk Hcap El Ec.
+  pose proof (ts_loadDict_ok m c a n c' r Hn Ha El) as LD. destruct LD as (L1 & _ & _ & L3 & _ & _ & _ & _ & _ & L9 & L10).
+  pose proof (ts_loadDict_hist m c a n c' r Hn Ha El) as HI.
+  unfold ts_continue in Ec.
+  destruct (ts_continue_generic_sound m c' src k cap _ ret consumed out hw c'' Hm L1 L9 Hs Hk Hcap Ec) as (ke & cte & Ee & R & _ & _ & Q).
+  assert (HD : match hs_dctx (ts_hs c') with Some d => hhist_inv m d (load_list m a (Z.to_nat n)) | None => True end) by (rewrite L3; exact I).
+  destruct (ts_effective_hist m m c' src k ke cte _ (conj L1 (conj L9 L10)) Hs ltac:(lia) Ee (or_intror HI) HD) as (Hke & _).
+  apply (tcontinue_claims m ke src k cap ret consumed out hw c'' _ Hk R Q Hke).
+  apply (ts_continue_generic_pos m c' src k cap _ ret consumed out hw c'' Hk Ec).
+Qed.
+
+(* LZ4_attach_HC_dictionary of a stream loaded at a hash-chain level onto a working stream that has not started: when the
+   call stays in the model (first block > 4 KB: the dictionary context is copied, LZ4HC_setExternalDict indexes its last
+   bytes) the block decodes with the dictionary bytes *)
+Theorem tab_attach_roundtrip m c0 d a n dc r src k cap ret consumed out hw c'' :
+  hmem_ok m -> ts_ok c0 -> k_dirty (ts_core c0) = false -> k_prefixStart (ts_core c0) = 0 ->
+  0 <= n -> 0 <= a -> 0 < src -> 0 <= k < 2147483648 -> 0 <= cap ->
+  ts_loadDict m d a n = Some (dc, r) ->
+  ts_continue m (ts_attach c0 (Some dc)) src k cap = Some (TRes ret consumed out hw c'') ->
+  (compressBound k <= cap -> k <= LZ4_MAX_INPUT_SIZE -> 0 < ret) /\
+  (0 < ret -> ret = Z.of_nat (length out) /\ ret <= Z.max cap (compressBound k) /\ consumed = k /\
+              win_strict (load_list m a (Z.to_nat n)) out (load_list m src (Z.to_nat k))).
+Proof.
+  intros Hm K0 Hd0 Hz Hn Ha Hs Hk Hcap El Ec.
+  pose proof (ts_loadDict_ok m d a n dc r Hn Ha El) as LD. destruct LD as (_ & L2 & L2c & _).
+  pose proof (ts_loadDict_hist m d a n dc r Hn Ha El) as HI.
+  assert (K : ts_ok (ts_attach c0 (Some dc))) by (apply ts_attach_ok; [exact K0 | exact (conj L2 L2c)]).
+  unfold ts_continue in Ec.
+  destruct (ts_continue_generic_sound m _ src k cap _ ret consumed out hw c'' Hm K Hd0 Hs Hk Hcap Ec) as (ke & cte & Ee & R & _ & Hl & Q).
+  assert (HD : match hs_dctx (ts_hs (ts_attach c0 (Some dc))) with Some x => hhist_inv m x (load_list m a (Z.to_nat n)) | None => True end) by exact HI.
+  destruct (ts_effective_hist m m _ src k ke cte _ (conj K (conj Hd0 Hl)) Hs ltac:(lia) Ee (or_introl Hz) HD) as (Hke & _).
+  apply (tcontinue_claims m ke src k cap ret consumed out hw c'' _ Hk R Q Hke).
+  apply (ts_continue_generic_pos m _ src k cap _ ret consumed out hw c'' Hk Ec).
 Qed.
 End TabProofs.
